@@ -87,14 +87,15 @@ CHECKS = {
              'delivery instants (in the sub-domain where nothing else can delay them) and timers keep their interval. Bounded exploration.',
         design_ref='5/C07'),
     'C08': dict(
-        technique='property-based testing: Hypothesis-generated closed-loop histories with handlers/timers that accumulate merge fields, '
+        technique='property-based testing: Hypothesis-generated closed-loop histories with handlers, timers and daemons (up to two patching background handlers per object) that accumulate merge fields, '
                   'results and non-idempotent marker transformations, under API latency (422 conflicts) and delete-and-recreate races; plus '
                   'a component-level generator driving patching.patch_obj() with a deletion or a foreign write injected before each of its '
                   '<=4 requests; oracle = reference model of the object + request-log rules + exactly-once markers',
         text='Reference-model comparison at quiescence (every patched field/result equals the last writer; every transformation marker '
              'occurs exactly once), request-log rules (status through /status iff the resource has the subresource; JSON patches '
              'start with a resourceVersion test and touch only transformation targets; no request after a 404; 404 is silent), and '
-             'no write on another uid than the handled one. One listed known finding (merge-patches land on a same-named successor).',
+             'no write on another uid than the handled one. Two listed known findings (merge-patches land on a same-named successor; the '
+             'leftover of a daemon\'s/timer\'s last patching is dropped), each identified by an executable predicate.',
         design_ref='5/C08'),
     'C09': dict(
         technique='property-based testing: Hypothesis-generated closed-loop histories over daemons/timers with generated stop behaviours and '
@@ -120,7 +121,7 @@ CHECKS = {
     'C11': dict(
         technique='property-based testing: Hypothesis-generated handler declarations (errors mode x retries x timeout x backoff) and outcome '
                   'scripts (kopf\'s error classes and subclasses of them) for change handlers, sub-handlers, daemons, timers and startup activities, run in '
-                  'the closed loop (with graceful restarts, and with the handler\'s cause superseded while it waits for a retry); oracle = the observed attempt sequence replayed against an executable reading of docs/errors.rst',
+                  'the closed loop (with graceful restarts, with the handler\'s cause superseded while it waits for a retry, and idling timers whose object changes between the attempts); oracle = the observed attempt sequence replayed against an executable reading of docs/errors.rst',
         text='Per attempt sequence: retry numbers 0,1,2,..., next start >= previous end + requested delay/backoff, nothing after a final '
              'outcome (permanent error, arbitrary error in permanent/ignored mode, limits), at most retries=N invocations, no start at or '
              'after first start + timeout, a due retry does happen within the bound, a persisted record that reached the limit says '
@@ -167,12 +168,18 @@ CHECKS = {
     'C15': dict(
         technique='bounded-exhaustive enumeration (itertools.product over a criteria alphabet, sampled in quick, complete in thorough) '
                   'of handler declarations x object states x causes through the public decorators, differential against an executable '
-                  'reading of docs/filters.rst; plus property-based closed-loop histories (Hypothesis) with filtered handlers',
+                  'reading of docs/filters.rst; plus property-based closed-loop histories (Hypothesis) with filtered handlers and sub-handlers; plus '
+                  'property-based testing (Hypothesis) of the resource-selector criterion: generated clusters of resources with overlapping names x every '
+                  'documented selector notation x re-scans of single API groups, differential against an executable reading of docs/resources.rst',
         text='L1 compares registry.get_handlers() with an independent matcher on ~4.7 million (declaration, state, cause) combinations over '
              'an alphabet that includes falsy literals (all of them in the thorough tier, a seed-dependent hashed sample of about a quarter in quick); L2 runs generated label/field/when-filtered '
              'operators in the closed loop and checks that every invocation satisfies its criteria on the view it got and that '
-             'objects matched by no handler receive no operator write. One listed known finding (value= on create/resume/delete) is '
-             'identified by an executable predicate and excluded so that the rest of the space is still compared.',
+             'objects matched by no handler receive no operator write, and that whenever a parent handler ran exactly those of its sub-handlers ran whose '
+             'own criteria hold; L3 compares the resources the operator serves (observation.revise_resources, also after re-scans of single groups) and the '
+             'handlers selected per served resource with an independent reading of docs/resources.rst (names of every sort, group/version forms, kubectl '
+             'notation, categories, EVERYTHING, callables, preferred versions, core-v1 priority, ambiguity, verbs). Two listed known findings (value= on '
+             'create/resume/delete; core-v1 priority not applied per event) are '
+             'identified by executable predicates and excluded so that the rest of the space is still compared.',
         design_ref='5/C15'),
     'C16': dict(
         engine='pure',
@@ -205,14 +212,14 @@ CHECKS = {
                   'serve_admission_request(); oracles = reference selection predicate, error-specificity order, and differential '
                   'patch semantics (own RFC 6902 applier on the returned patch vs own RFC 7386 merge of the requested changes + fns)',
         text='Generated-input exploration of the whole admission entry point (selection by id/type hint, operation/DELETE rule, '
-             'subresource, filters; allowed/denied, message and code of the most specific error - raised as kopf\'s classes or as subclasses of them -, warnings order; patch '
+             'subresource, filters - judged on the reviewed object even when the old object of an UPDATE differs; allowed/denied, message and code of the most specific error - raised as kopf\'s classes or as subclasses of them -, warnings order; patch '
              'equivalence up to empty mappings). Bounded exploration.',
         note='trusted base: kopfsim/rfc.py (RFC 7386/6902); hinted requests respect the hinted handler\'s operations (as the API '
              'server guarantees), see DESIGN 5/C18',
         design_ref='5/C18'),
     'C19': dict(
         technique='property-based testing: Hypothesis-generated closed-loop histories (object changes in several namespaces and of a '
-                  'cluster-scoped kind, namespaces and a CRD appearing/disappearing, stream breaks and in-stream faults at generated '
+                  'cluster-scoped kind, namespaces and a CRD appearing/disappearing, the CRD of a kind served by its short name losing/regaining that name, stream breaks and in-stream faults at generated '
                   'positions, bookmarks, 410 expiry, 429 on list/watch, server/client/inactivity timeouts, unknown events and ERRORs, resource versions '
                   'that start below/at a power of ten, a '
                   'higher-priority peer appearing/vanishing, and the garbage-collection schedule); oracle = protocol, delivery, pause and '
@@ -226,13 +233,13 @@ CHECKS = {
     'C20': dict(
         technique='property-based testing: Hypothesis-generated closed-loop runs (startup/cleanup handler scripts with retry limits and '
                   'durations, slow change handlers, daemons with staged termination, timers, peering on/off, API response latency, objects before and during the '
-                  'run, events queued behind a slow handler) with one terminating trigger at a generated instant (stop flag, cancellation, '
+                  'run, objects deleted shortly before the trigger so that daemons are already being stopped, events queued behind a slow handler) with one terminating trigger at a generated instant (stop flag, cancellation, '
                   'unknown ERROR in the CRD stream, unknown ERROR in the served resource\'s stream, none); oracle = ordering/outcome '
                   'invariants over the global order of handler calls, API requests, stream intervals and the run call\'s outcome',
         text='No request before the last startup handler succeeded; a failed startup => no request, no ready flag, the run call raises; '
              'ready flag only after startup; after the trigger the run call returns within the bound from the configured grace periods with '
              'the right outcome (failure re-raised / CancelledError / nothing); when the first cleanup handler starts every daemon has '
-             'been asked to stop, no stream of the process is open, the peering record is withdrawn, and no handler starts afterwards; '
+             'been asked to stop and none is still within its own cancellation backoff + timeout counted from the exit, no stream of the process is open, the peering record is withdrawn, and no handler starts afterwards; '
              'with the stop flag all cleanup handlers complete; nothing of the process happens after the run call returned. Two listed '
              'known findings (a failed watcher does not stop the operator; cleanup starts while invocations still run). Bounded exploration.',
         design_ref='5/C20'),
